@@ -384,3 +384,42 @@ PROPS["C15"] = dict(
     harnesses=[E1[k] for k in ("pos4", "pos6", "slice4", "slice6", "bytes", "ws4", "ws6", "tok4", "tok6", "sliceb", "tree00", "lextwin")]
     + [STEP[4], STEP[1], STEP[5]] + [E4Q[n] for n in ("lr_g2_nullable_q", "lr_g14_unary_chain_q", "lr_g2_nullable_t", "lr_g14_unary_chain_t")],
 )
+
+
+# ---- E3 (C08) ---------------------------------------------------------------------------------
+import gen_e3  # noqa: E402
+
+F_GEN = ["rustemo-compiler/src/generator/{mod,arrays,functions,base}.rs: generate_parser (executed natively on the corpus; its output, the generated parser module, is compiled unchanged into the harness crate)",
+         "generated code: <Grammar>ParserDefinition::{actions, goto, expected_token_kinds, longest_match, grammar_order}, State::default_layout, From<ProdKind> for NonTermKind"]
+
+
+def e3_harnesses():
+    hs = []
+    for c in gen_e3.E3_CORPUS:
+        tiers = Q if c["quick"] else T
+        for layout in ("fn", "arr"):
+            for q, what in (("actions", "every (state, token) action query = computed cell"), ("gotos", "every existing (state, non-terminal) goto = computed goto"),
+                            ("expected", "every expected-token query = computed sorted terminals + finish flags"), ("misc", "settings constants, layout state, production->non-terminal, enum order")):
+                hs.append(h("e3", "proofs::%s_%s::%s" % (c["name"], layout, q), "%s %s [%s layout]: %s" % (os.path.basename(c["file"]), " ".join(c["args"]), "functions" if layout == "fn" else "arrays", what),
+                            "all states x all tokens / non-terminals of the module (symbolic indexes)", F_GEN, tiers=tiers, timeout=900, mem_gb=8, cost=1))
+    return hs
+
+
+import os  # noqa: E402
+
+PROPS["C08"] = dict(
+    level="other",
+    explanation=(
+        "For every grammar of a corpus (repo tests/examples/docs grammars and the verif corpus; LR and GLR settings) and both "
+        "generated-table layouts, the real generator is run on /repo's current tree and the generated parser module is compiled "
+        "UNCHANGED into the harness crate next to the plain-data dump of the table the compiler computed. Kani/CBMC decides, for "
+        "every state index and every token / non-terminal index (symbolic), that actions(), goto() and expected_token_kinds() of "
+        "the generated PARSER_DEFINITION answer exactly as the computed table (as sequences), and that the settings constants, "
+        "layout state and production->non-terminal map agree. Since both layouts equal the same dump cell by cell they equal each "
+        "other; 'parse every input identically' then follows from their driving the same runtime (inference, not a solver result)."
+    ),
+    residual="grammars outside the corpus (finite corpus); the recognizers (regex strings) and the builder part of the generated file",
+    assumptions=["index <-> enum variant correspondence = declaration order of the generated enums (what `state as usize` / array indexing in the generated code relies on), read from the generated source",
+                 "goto queries without a table entry are excluded (the generated code panics there by design: 'Invalid GOTO entry')"],
+    harnesses=e3_harnesses(),
+)
